@@ -114,8 +114,8 @@ def toyAEAD : AEAD where
   sealF _ _ p _ := p ++ zeros 16
   openF _ _ c _ := some (c.take (c.length - 16))
 
-theorem toyAEAD_sized : toyAEAD.Sized := by intro k n p ad; simp [toyAEAD]
-theorem toyAEAD_lawful : toyAEAD.Lawful := by intro k n p ad; simp [toyAEAD]
+example : toyAEAD.Sized ∧ toyAEAD.Lawful :=
+  ⟨by intro k n p ad; simp [toyAEAD], by intro k n p ad; simp [toyAEAD]⟩
 
 def samplePacket : Packet :=
   { uid := zeros 32, cookies := [List.replicate 24 7], placeholders := [zeros 24], key := zeros 32, pt := [] }
